@@ -44,7 +44,7 @@ MC = {
     "capacity_pay": {"module": "MC_Decoder",
                      "cfg": dec_cfg("TokCAP", "FirstCAP", 2, ["TypeOK", "CapacityRule", "CapRespect", "Resync", "Tiles"],
                                     caps=q("CapsQuick", "CapsThorough"), paylen=q(4, 8))},
-    "frame_rle": {"module": "MC_FrameRle", "cfg": "INIT Init\nNEXT Next\nINVARIANT Agree\nCONSTANTS\n  PayBytes = {27, 0, 85, 1}\n  PayLen = 6\nCHECK_DEADLOCK FALSE\n"},
+    "frame_rle": {"module": "MC_FrameRle", "workers": 2, "cfg": "INIT Init\nNEXT Next\nINVARIANT Agree\nCONSTANTS\n  PayBytes = {27, 0, 85, 1}\n  PayLen = 6\nCHECK_DEADLOCK FALSE\n"},
     "encoders": {"module": "MC_Encoder",
                  "cfg": lambda tier: "SPECIFICATION Spec\nCONSTANTS\n  PayBytes = {27, 0, 85}\n  PayLen = %d\n  ExtraCalls = 3\n"
                                      "INVARIANT NoPanicArm\nINVARIANT IterPrefix\nINVARIANT IterComplete\nINVARIANT Fused\nINVARIANT PadCounter\n"
@@ -63,6 +63,17 @@ TRANSPORT_ASSUME = [
     "the harness (harness/src) reports what the public API of the crate returned; stimuli are built by the harness' own frame builder, never by the code under test",
     "bounded: token alphabets and depths as listed under implementation_families / model_checking",
 ]
+
+PARSER_ASSUME = [
+    "TLC evaluates the TLA+ grammar (Tlf, SmlGrammar, StreamParser) correctly; that grammar is an independent reading of SML 1.04 restricted to the supported subset",
+    "the harness prints parser results faithfully in the canonical JSON shape documented in spec/SmlGrammar.tla",
+    "inputs are bounded by the listed families (real meter frames, generated files, their corruptions); lengths below 65536 bytes",
+]
+
+
+def P(rule):
+    return {"rule": rule, "assumptions": PARSER_ASSUME}
+
 
 def T(rule):
     return {"rule": rule, "assumptions": TRANSPORT_ASSUME}
@@ -100,6 +111,29 @@ PROPS = {
                   "SmlReader::with_static_buffer::<N>, each followed by an empty frame; 8 KiB default buffer with 8191/8192/8193-byte payloads"),
                 mc={"quick": ["capacity_pay"], "thorough": ["capacity_pay"]},
                 steps=[{"cmd": "c16", "judge": "J_C16"}]),
+    "C03": dict(P("valid files from the harness generator (all value types, integer widths 1-8, optional masks, multi-byte / non-minimal TLFs, list lengths across 15/16, both time encodings, "
+                  "1-byte checksum fields) with the generator's intended content, plus the corpus payloads and their message-boundary truncations; judged against SmlGrammar.ParseFile"),
+                mc={"quick": [], "thorough": []},
+                steps=[{"cmd": "c03", "judge": "J_C03", "cfg": "JudgeP.cfg"}]),
+    "C04": dict(P("218 corpus payloads + generated files x (all truncations, extensions, single-byte substitutions - exhaustive at TLF bytes and for the smallest files -, element deletion / duplication / "
+                  "arity change / replacement, declared-length bombs, random multi-byte edits and splices), each with and without recomputed message checksums; every accepted input of the structural "
+                  "classes and a hash sample of accepted data corruptions are judged against SmlGrammar.ParseFile"),
+                mc={"quick": [], "thorough": []},
+                steps=[{"cmd": "c04", "judge": "J_C04", "cfg": "JudgeP.cfg"}]),
+    "C06": dict(P("declared-length bombs (2^k-1, 2^k for k in 4..32, and beyond 32 bits) at every TLF of every base file, structural edits and a sample of the other corruptions; each case run in a worker "
+                  "process under a watchdog with a counting global allocator; record = (|x|, outcomes, allocation count / largest / total)"),
+                mc={"quick": [], "thorough": []},
+                steps=[{"cmd": "c06", "judge": "J_C06", "cfg": "JudgeP.cfg"}]),
+    "C09": dict(P("the same corruption families as C04; both real parsers on every input; records de-duplicated by (allocating result, event list)"),
+                mc={"quick": [], "thorough": []},
+                steps=[{"cmd": "c09", "judge": "J_C09", "cfg": "JudgeP.cfg"}]),
+    "C12": dict(P("every 1- and 2-byte TLF, a strided (quick) / exhaustive (thorough) set of 3-byte TLFs, crafted 4-12 byte TLFs around 2^32 and the own-size subtraction, integers of width 0-9 with "
+                  "boundary leading bytes, all boolean bytes - each at 8 field positions of a message template, observed through the streaming parser's events"),
+                mc={"quick": [], "thorough": []},
+                steps=[{"cmd": "c12", "judge": "J_C12", "cfg": "JudgeP.cfg"}]),
+    "C13": dict(P("the same corruption families as C04; next() is called until None (at most |x|+8 items) and 5 more times; record = (|x|, items, items after the end, error positions)"),
+                mc={"quick": [], "thorough": []},
+                steps=[{"cmd": "c13", "judge": "J_C13", "cfg": "JudgeP.cfg"}]),
     "C17": dict(T("every stream of ADV / INFRAME / HIST / NOISE, corpus, mutations with push+finalize and SmlReader (iterator, io::Read); noise runs of 255..2^17+1 bytes; "
                   "both the overflow-checked and the wrapping (release) build; record = (length, event list)"),
                 mc={"quick": ["tiles_adv", "tiles_hist"], "thorough": ["tiles_adv", "tiles_hist", "resync_noise"]},
@@ -116,7 +150,25 @@ def _t(level, ref, technique, note=_NOTE_TR):
     return {"level": level, "ref": ref, "technique": technique, "note": note}
 
 
+_NOTE_P = ("Trusted: TLC and the TLA+ grammar modules Tlf / SmlGrammar / StreamParser (an independent reading of SML 1.04 for the supported subset, validated against 218 real meter payloads and "
+           "~4000 generated files with zero disagreement on the repaired tree), the harness' canonical dump of parser results; inputs shorter than 65536 bytes.")
+
 MANIFEST_TEXT = {
+    "C03": _t("TLC judges, for ~4000 generated files covering every value type / integer width / optional mask / multi-byte and non-minimal TLF / list length across 15-16 / time encoding, and for the real "
+              "meter payloads, that SmlGrammar.ParseFile accepts the bytes with the generator's intended content and that both real parsers return exactly that content.", "5/C03",
+              "TLC-judged trace validation against the TLA+ grammar (J_C03)", _NOTE_P),
+    "C04": _t("TLC re-parses every input the real parsers accepted (from ~1.3-1.8 M systematic and random corruptions of valid files, with and without recomputed checksums) with the independent TLA+ grammar "
+              "and requires acceptance with identical content.", "5/C04", "TLC-judged trace validation against the TLA+ grammar (J_C04)", _NOTE_P),
+    "C06": _t("Every case runs in a worker process under a watchdog with a counting global allocator (overflow-checked build); TLC judges outcome in {value, error} for both parsers, largest and total "
+              "allocation request <= 256*|x|+4096 (x4 for the total) and zero allocations in the streaming parser, over declared-length bombs at every TLF position and structural corruptions.", "5/C06",
+              "fault/length-bomb enumeration in worker processes + TLC-judged resource monitor (J_C06)", _NOTE_P),
+    "C09": _t("TLC re-assembles the recorded events of the real streaming parser with the spec's Reassemble operator (which also enforces the event grammar) and compares with the real allocating parser's "
+              "result and error kind, on the corruption families.", "5/C09", "TLC-judged differential trace validation (J_C09)", _NOTE_P),
+    "C12": _t("TLC compares the real streaming parser's events on ~626 k crafted messages (all 1- and 2-byte TLFs, 3-byte TLFs, 4-12 byte TLFs around 2^32, integers of every width with boundary leading bytes, "
+              "all boolean bytes, at 8 field positions) with the spec's StreamItems, whose 32-bit TLF machine is itself checked against an arbitrary-precision rule.", "5/C12",
+              "TLC-judged trace validation against the TLA+ TLF/primitive rules (J_C12)", _NOTE_P),
+    "C13": _t("TLC judges (|x|, items, items after the end, error positions) of the real iterator on the corruption families: at most |x|+1 items, at most one error and it is last, then None for 5 further calls.",
+              "5/C13", "TLC-judged trace validation (J_C13)", _NOTE_P),
     "C01": _t("TLC checks RoundTrip/NothingAfter on the Decoder+Encoder spec for all payloads up to the bound, and judges observations of the real encoders x 11-14 decoder front-ends on ~20k payloads "
               "(exhaustive small alphabet, lengths across 2^8/2^10/2^13/2^16, corpus, random) with the monitor J_C01.", "5/C01", "TLC model checking + TLC-judged trace validation (J_C01)"),
     "C02": _t("TLC checks Sound (IsSuffix(Canonical(m), stream)) on the decoder spec over adversarial token trees with attacker-recomputed checksums, and judges every ok event the real front-ends "
